@@ -338,6 +338,9 @@ func (fx *FnCtx) Finalize() {
 	for _, d := range axTexts {
 		pre.WriteString(d + "\n")
 	}
+	for _, d := range unicodeFacts(fx.usedSpecs) {
+		pre.WriteString(d + "\n")
+	}
 	prelude := pre.String()
 	for _, q := range fx.queries {
 		if q.pending == nil {
